@@ -134,6 +134,17 @@ def ob_allow_list(report):
             p.events.append(Event('membership', call.short, (s, key)))
             if isinstance(s, Sym) and s.get_ov('elements') is not None and isinstance(key, z3.ExprRef):
                 return k(p, z3.Or([key == e for e in s.get_ov('elements').fields]))
+            if isinstance(s, Agg) and s.kind == 'array' and isinstance(key, z3.ExprRef):
+                # an inline array scanned in full (`<[T]>::contains`): every slot counts, padding included
+                def idbv(e):
+                    e = e2.peel(e)
+                    if isinstance(e, Agg) and e.kind == 'array' and len(e.fields) * 8 == key.size():
+                        bs = [b if isinstance(b, z3.ExprRef) else ex.to_bv(b, 8) for b in e.fields]      # big-endian byte array = the 256-bit id
+                        return z3.Concat(*bs) if len(bs) > 1 else bs[0]
+                    return e if isinstance(e, z3.ExprRef) else ex.to_bv(e, key.size())
+                es = [idbv(e) for e in s.fields]
+                if all(isinstance(e, z3.ExprRef) and e.sort() == key.sort() for e in es):
+                    return k(p, z3.Or([key == e for e in es]))
             return NotImplemented
 
         def m_size(ex, p, call, k):
@@ -208,6 +219,19 @@ def ob_allow_list(report):
         def m_fin_next(ex, p, call, k):
             # explicit `for x in peers { .. }` over the finite list: elements in order, then None
             it = ex.deref(p, call.args[0]) if isinstance(call.args[0], Ptr) else call.args[0]
+            if isinstance(it, Agg) and it.name == 'ZipSlots':
+                # slice.iter_mut().zip(&finite list): pairs (slot i, element i) while both last
+                slots, els, pos = it.fields[0], it.fields[1], it.fields[2]
+                arr = ex.deref(p, slots)
+                n_ = min(len(arr.fields) if isinstance(arr, Agg) else 0, len(els.fields))
+                if pos >= n_:
+                    return k(p, MD.NONE)
+                if isinstance(call.args[0], Ptr):
+                    ex.store(p, call.args[0], Agg('ZipSlots', None, (slots, els, pos + 1), 'struct'))
+                cell = ('H', f'zip-elem{p.seq("zipelem")}', 'PeerId')
+                p.mem[cell] = els.fields[pos]
+                slot = Ptr(slots.key, tuple(slots.projs) + (('cindex', pos, ''),), True)
+                return k(p, MD.some(Agg('()', None, (slot, Ptr(cell)), 'tuple')))
             el = it.get_ov('elements') if isinstance(it, Sym) else None
             if el is None:
                 return NotImplemented
@@ -261,12 +285,32 @@ def ob_allow_list(report):
 
         def m_arc_deref(ex, p, call, k):
             k(p, call.args[0])
-        models = [(r'Request::peer_id$', m_peer_id), (r'as IntoResponse>::into_response$', m_into_response), (r'Iterator>::map$', m_iter_map), (r'(HashMap|BTreeMap)::get$', m_assoc_get),
+        def m_iter_mut(ex, p, call, k):
+            a0 = call.args[0]
+            arr = ex.deref(p, a0) if isinstance(a0, Ptr) else None
+            if not (isinstance(arr, Agg) and arr.kind == 'array'):
+                return NotImplemented
+            k(p, Agg('SlotIter', None, (a0,), 'struct'))
+
+        def m_zip(ex, p, call, k):
+            a, b = call.args[0], call.args[1]
+            c = ex.deref(p, b) if isinstance(b, Ptr) else b
+            el = c.get_ov('elements') if isinstance(c, Sym) else None
+            if not (isinstance(a, Agg) and a.name == 'SlotIter') or el is None:
+                return NotImplemented
+            k(p, Agg('ZipSlots', None, (a.fields[0], el, 0), 'struct'))
+
+        def m_zip_into_iter(ex, p, call, k):
+            if isinstance(call.args[0], Agg) and call.args[0].name == 'ZipSlots':
+                return k(p, call.args[0])
+            return NotImplemented
+        models = [(r'slice::(<impl[^>]*>::)?iter_mut$', m_iter_mut), (r'IterMut as Iterator>::zip$', m_zip), (r'Zip as IntoIterator>::into_iter$', m_zip_into_iter),
+                  (r'Request::peer_id$', m_peer_id), (r'as IntoResponse>::into_response$', m_into_response), (r'Iterator>::map$', m_iter_map), (r'(HashMap|BTreeMap)::get$', m_assoc_get),
                   (r'(^|::)(Arc|Mutex|RwLock)(::<.*>)?::new$', m_wrap_new), (r'(Mutex::(lock|try_lock)|RwLock::(read|write|try_read|try_write))$', m_lock),
                   (r'<(\w+::)*(MutexGuard|RwLockReadGuard|RwLockWriteGuard) as Deref(Mut)?>::deref(_mut)?$', m_guard_deref), (r'<(\w+::)*Arc as Deref>::deref$', m_arc_deref),
                   (r' as Iterator>::next$', m_fin_next), (r'(HashSet|BTreeSet)::(new|with_capacity|default)$|<(\w+::)*(HashSet|BTreeSet) as Default>::default$', m_set_new),
                   (r'(HashSet|BTreeSet)::insert$', m_set_insert),
-                  (r'(HashSet|BTreeSet|Vec|slice)::contains$|HashSet::get$', m_contains), (r'(HashSet|BTreeSet|Vec|slice)::(is_empty|len)$', m_size),
+                  (r'(HashSet|BTreeSet|Vec|slice)::(<impl[^>]*>::)?contains$|HashSet::get$', m_contains), (r'(HashSet|BTreeSet|Vec|slice)::(is_empty|len)$', m_size),
                   (r'as IntoIterator>::into_iter$|Iterator>::collect$|FromIterator>::from_iter$|Iterator>::copied$|Iterator>::cloned$', m_collect)]
         ex = e2.executor('anemo-tower', models, max_depth=4, unroll=80)
         new = find_method(ex.prog, 'AllowedPeers', 'new')
